@@ -261,7 +261,8 @@ pub fn convert<'a, R: Reader<Offset = usize> + 'a>(mk: &dyn Fn(&'a [u8]) -> R, c
         }
     }
 
-    // 4. a line program without a unit, read row by row or sequence by sequence
+    // 4. a line program without a unit: read row by row, sequence by sequence, or converted
+    //    as a whole
     ctx.enter_with_budget("write.Dwarf.read_line_program", budget);
     let asz0 = case.knob("addr_size", 8) as u8;
     let standalone = (|| -> write::ConvertResult<(usize, usize)> {
@@ -270,13 +271,20 @@ pub fn convert<'a, R: Reader<Offset = usize> + 'a>(mk: &dyn Fn(&'a [u8]) -> R, c
         let (enc, lenc) = target_encodings(sel, program.header().encoding());
         let mut conv = out.read_line_program(&dwarf, program, enc, lenc)?;
         let mut n = 0usize;
-        if sel & 1 == 0 {
-            while let Some(seq) = conv.read_sequence()? {
-                n += 1 + seq.rows.len();
+        match sel % 3 {
+            0 => {
+                while let Some(seq) = conv.read_sequence()? {
+                    n += 1 + seq.rows.len();
+                }
             }
-        } else {
-            while let Some(_row) = conv.read_row()? {
-                n += 1;
+            1 => {
+                while let Some(_row) = conv.read_row()? {
+                    n += 1;
+                }
+            }
+            _ => {
+                let (_program, files) = conv.convert(&convert_address)?;
+                return Ok((0, files.len()));
             }
         }
         let in_seq = conv.in_sequence();
@@ -294,6 +302,11 @@ pub fn convert<'a, R: Reader<Offset = usize> + 'a>(mk: &dyn Fn(&'a [u8]) -> R, c
             ev!(ctx, "standalone line error {:?}", std::mem::discriminant(&e));
         }
     }
+
+    // 4b. the converters' own lazy `read_*` methods under a caller that ignores errors and
+    //     keeps calling (the documented loops, minus the `?`): each must reach Ok(None) within
+    //     a number of calls bounded by the input size
+    lazy_converters(&dwarf, case, ctx, &convert_address, sel, asz0);
 
     // 5. frame tables
     let asz = case.knob("addr_size", 8) as u8;
@@ -349,6 +362,160 @@ pub fn convert<'a, R: Reader<Offset = usize> + 'a>(mk: &dyn Fn(&'a [u8]) -> R, c
         Err(e) => {
             ctx.errs += 1;
             ev!(ctx, "frame convert error {:?}", std::mem::discriminant(&e));
+        }
+    }
+}
+
+/// Error-ignoring caller over `ConvertLineProgram::{read_row, read_sequence}`,
+/// `FilterUnitSection::read_unit` / `FilterUnit::read_entry` and
+/// `ConvertUnitSection::read_unit` / `ConvertUnit::read_entry`.
+fn lazy_converters<R: Reader<Offset = usize>>(
+    dwarf: &gimli::Dwarf<R>,
+    case: &Case,
+    ctx: &mut Ctx<'_>,
+    _convert_address: &dyn Fn(u64) -> Option<Address>,
+    sel: u64,
+    asz0: u8,
+) {
+    use crate::ctx::LoopGuard;
+    let n_line = case.sec("debug_line").len();
+    let n_info = case.sec("debug_info").len() + case.sec("debug_abbrev").len();
+    let budget = 64 * (n_info as u64 + n_line as u64 + 1) + (1 << 20);
+
+    // line rows / sequences, following the documented example
+    if let Ok(program) = dwarf.debug_line.program(gimli::DebugLineOffset(0), asz0, None, None) {
+        let mut out = write::Dwarf::new();
+        let (enc, lenc) = target_encodings(sel, program.header().encoding());
+        ctx.enter_with_budget("write.ConvertLineProgram.new", budget);
+        if let Ok(mut conv) = out.read_line_program(dwarf, program, enc, lenc) {
+            let by_seq = (sel >> 11) & 1 == 0;
+            let api = if by_seq { "write.ConvertLineProgram.read_sequence" } else { "write.ConvertLineProgram.read_row" };
+            let mut guard = LoopGuard::new(ctx.iter_bound(n_line));
+            loop {
+                ctx.enter_with_budget(api, budget);
+                if !guard.step(ctx) {
+                    break;
+                }
+                if by_seq {
+                    match conv.read_sequence() {
+                        Ok(Some(seq)) => {
+                            ctx.item();
+                            ev!(ctx, "seq rows={}", seq.rows.len());
+                            // (rows are not fed to `generate_row` here: it documents a panic for
+                            // advances the caller did not validate; `convert()` above does both)
+                        }
+                        Ok(None) => {
+                            ctx.end();
+                            break;
+                        }
+                        Err(e) => {
+                            ctx.errs += 1;
+                            ev!(ctx, "err {:?}", std::mem::discriminant(&e));
+                        }
+                    }
+                } else {
+                    match conv.read_row() {
+                        Ok(Some(_)) => ctx.item(),
+                        Ok(None) => {
+                            ctx.end();
+                            break;
+                        }
+                        Err(e) => {
+                            ctx.errs += 1;
+                            ev!(ctx, "err {:?}", std::mem::discriminant(&e));
+                        }
+                    }
+                }
+            }
+        }
+    }
+
+    // filter pass: units and entries
+    ctx.enter_with_budget("write.FilterUnitSection.new", budget);
+    if let Ok(mut filter) = write::FilterUnitSection::new(dwarf) {
+        let mut ug = LoopGuard::new(ctx.iter_bound(n_info));
+        loop {
+            ctx.enter_with_budget("write.FilterUnitSection.read_unit", budget);
+            if !ug.step(ctx) {
+                break;
+            }
+            match filter.read_unit() {
+                Ok(Some(mut unit)) => {
+                    ctx.item();
+                    let mut entry = unit.null_entry();
+                    let mut eg = LoopGuard::new(ctx.iter_bound(n_info));
+                    loop {
+                        ctx.enter_with_budget("write.FilterUnit.read_entry", budget);
+                        if !eg.step(ctx) {
+                            break;
+                        }
+                        match unit.read_entry(&mut entry) {
+                            Ok(true) => ctx.item(),
+                            Ok(false) => {
+                                ctx.end();
+                                break;
+                            }
+                            Err(e) => {
+                                ctx.errs += 1;
+                                ev!(ctx, "err {:?}", std::mem::discriminant(&e));
+                            }
+                        }
+                    }
+                }
+                Ok(None) => {
+                    ctx.end();
+                    break;
+                }
+                Err(e) => {
+                    ctx.errs += 1;
+                    ev!(ctx, "err {:?}", std::mem::discriminant(&e));
+                }
+            }
+        }
+    }
+
+    // conversion pass: units and entries
+    let mut out = write::Dwarf::new();
+    ctx.enter_with_budget("write.Dwarf.convert", budget);
+    if let Ok(mut conv) = out.convert(dwarf) {
+        let mut ug = LoopGuard::new(ctx.iter_bound(n_info));
+        loop {
+            ctx.enter_with_budget("write.ConvertUnitSection.read_unit", budget);
+            if !ug.step(ctx) {
+                break;
+            }
+            match conv.read_unit() {
+                Ok(Some((mut unit, root))) => {
+                    ctx.item();
+                    let mut entry = root;
+                    let mut eg = LoopGuard::new(ctx.iter_bound(n_info));
+                    loop {
+                        ctx.enter_with_budget("write.ConvertUnit.read_entry", budget);
+                        if !eg.step(ctx) {
+                            break;
+                        }
+                        match unit.read_entry(&mut entry) {
+                            Ok(Some(_)) => ctx.item(),
+                            Ok(None) => {
+                                ctx.end();
+                                break;
+                            }
+                            Err(e) => {
+                                ctx.errs += 1;
+                                ev!(ctx, "err {:?}", std::mem::discriminant(&e));
+                            }
+                        }
+                    }
+                }
+                Ok(None) => {
+                    ctx.end();
+                    break;
+                }
+                Err(e) => {
+                    ctx.errs += 1;
+                    ev!(ctx, "err {:?}", std::mem::discriminant(&e));
+                }
+            }
         }
     }
 }
